@@ -50,3 +50,18 @@ Theorem C05_gen_guards :
   guard_row "check_bundle_intervals" = Some ("check_bundle_intervals"%string, 0, 1).
 Proof. exact gen_timing_guards. Qed.
 Print Assumptions C05_gen_guards.
+
+(* the timing checks statement by statement as read from /repo (texts for messages and loops that only feed the debug listing left out): every bundle is visited, differences are signed, bounds are compared with < and > (inclusive bounds), the cycle is last inception minus first - what Model.KsrPolicy transcribes *)
+Theorem C05_gen_timing_statements :
+  Gen.Skeleton.check_signature_validity_shape =
+    ["if not policy.signature_validity_match_zsk_policy: return"%string;"for bundle in request.bundles: validity = bundle.expiration - bundle.inception ; if validity < request.zsk_policy.min_signature_validity: raise KSR_POLICY_SIG_VALIDITY_Violation ; if validity > request.zsk_policy.max_signature_validity: raise KSR_POLICY_SIG_VALIDITY_Violation"%string;"_num_bundles = len(request.bundles)"%string] /\
+  Gen.Skeleton.check_bundle_overlaps_shape =
+    ["if not policy.check_bundle_overlap: return"%string;"for i in range(1, len(request.bundles)): previous = request.bundles[i - 1] ; this = request.bundles[i] ; if this.inception > previous.expiration: raise KSR_POLICY_SIG_OVERLAP_Violation ; overlap = previous.expiration - this.inception ; if overlap < request.zsk_policy.min_validity_overlap: raise KSR_POLICY_SIG_OVERLAP_Violation ; if overlap > request.zsk_policy.max_validity_overlap: raise KSR_POLICY_SIG_OVERLAP_Violation"%string] /\
+  Gen.Skeleton.check_bundle_intervals_shape =
+    ["if not policy.check_bundle_intervals: return"%string;"for num in range(1, len(request.bundles)): interval = request.bundles[num].inception - request.bundles[num - 1].inception ; if interval < policy.min_bundle_interval: bundle = request.bundles[num] ; raise KSR_POLICY_BUNDLE_INTERVAL_Violation ; if interval > policy.max_bundle_interval: bundle = request.bundles[num] ; raise KSR_POLICY_BUNDLE_INTERVAL_Violation"%string] /\
+  Gen.Skeleton.check_cycle_durations_shape =
+    ["if not policy.check_cycle_length: return"%string;"if not request.bundles: return"%string;"cycle_inception_length = request.bundles[-1].inception - request.bundles[0].inception"%string;"if cycle_inception_length < policy.min_cycle_inception_length: raise KSR_BUNDLE_CYCLE_DURATION_Violation"%string;"if cycle_inception_length > policy.max_cycle_inception_length: raise KSR_BUNDLE_CYCLE_DURATION_Violation"%string] /\
+  Gen.Skeleton.check_bundle_count_shape =
+    ["_num_bundles = len(request.bundles)"%string;"if _num_bundles != policy.num_bundles: raise KSR_BUNDLE_COUNT_Violation"%string].
+Proof. exact gen_timing_shapes. Qed.
+Print Assumptions C05_gen_timing_statements.
